@@ -8,7 +8,7 @@ from fractions import Fraction
 from ..interp import cval, has_const
 from ..source import norm_text
 from .common import def_map, expand
-from .geo import kind_errors, uniq_events
+from .geo import kind_errors, under, uniq_events
 
 TTV = 'gemdat.volume.trajectory_to_volume'
 VOL = 'gemdat.volume.Volume'
@@ -61,7 +61,7 @@ def check(ctx):
     ctx.floor('R4', 1)
     fi = ctx.fn(TTV)
     it = ctx.entry(TTV)
-    inside = lambda f: f.qualname == TTV
+    inside = under(TTV)
     env = {}
     for n in ast.walk(fi.node):
         if isinstance(n, ast.Assign) and len(n.targets) == 1 and isinstance(n.targets[0], ast.Name):
